@@ -282,7 +282,7 @@ fn base_archive(codec: u8, root: MDir) -> MArchive {
 }
 
 /// The crafted corpus: (hazard class, label, archive bytes)
-pub fn crafted(rng: &mut Rng, codecs: &[u8], small_only: bool) -> Vec<(String, String, Vec<u8>)> {
+pub fn crafted(rng: &mut Rng, codecs: &[u8], small_only: bool, bombs: bool) -> Vec<(String, String, Vec<u8>)> {
     let mut v: Vec<(String, String, Vec<u8>)> = Vec::new();
     let mut add = |class: &str, label: String, a: &MArchive, rng: &mut Rng| {
         v.push((class.to_string(), label, a.assemble(rng)));
@@ -467,6 +467,16 @@ pub fn crafted(rng: &mut Rng, codecs: &[u8], small_only: bool) -> Vec<(String, S
             a.meta_plain = meta;
             add("metadata", format!("{cn}: {name}"), &a, rng);
         }
+        // metadata that expands by three orders of magnitude (52 MB of whitespace around `{}`; thorough tier only: every open
+        // parses it)
+        if bombs && (codec == R::C_GZIP || codec == R::C_ZSTD) {
+            let mut a = base_archive(codec, dir_with(1, &[1], &[1], &[5], &[1]));
+            let mut m = vec![b' '; 52_000_000];
+            m.extend_from_slice(b"{}");
+            m.extend(vec![b'\n'; 2_000_000]);
+            a.meta_plain = m;
+            add("metadata-bomb", format!("{cn}: metadata expands to 54 MB of whitespace around an empty object"), &a, rng);
+        }
         // tiny metadata: every single byte, and every two-byte string that starts a multi-byte UTF-8 sequence, a BOM,
         // or a JSON token
         if (codec == R::C_NONE || codec == R::C_ZSTD) && !small_only {
@@ -550,7 +560,7 @@ pub fn run(ctx: &mut Ctx) {
         hostile::NO_ZSTD.store(true, std::sync::atomic::Ordering::Relaxed);
     }
     // ---- (a) crafted corpus, one case each
-    let corpus = if miri { crafted(&mut ctx.rng("c08.crafted", 0), &[R::C_NONE], true) } else { crafted(&mut ctx.rng("c08.crafted", 0), &R::CODECS, false) };
+    let corpus = if miri { crafted(&mut ctx.rng("c08.crafted", 0), &[R::C_NONE], true, false) } else { crafted(&mut ctx.rng("c08.crafted", 0), &R::CODECS, false, !ctx.quick()) };
     for (class, label, bytes) in &corpus {
         if miri && bytes.len() > 2000 {
             case += 1;
